@@ -192,7 +192,7 @@ fn main() {
         let prof = if checked_profile { "checked" } else { "release" };
         let (_, _, _, walp) = worker_paths(&id, prof, w);
         wal::install(&walp);
-        wal::watchdog(tier.pick(30, 120));
+        wal::watchdog(tier.pick(120, 600));
         let mut rep = Report::new();
         (spec.run)(&cfg, &mut rep);
         if let Err(e) = save_worker_report(&cfg, &mut rep) {
